@@ -27,6 +27,12 @@ impl V {
     }
     fn bytes(&self) -> Vec<u8> {
         match self {
+            // blobs 100.. are long (the length depends on n): racing replacements change the size
+            V::B(n) if *n >= 100 => {
+                let mut v = format!("blob-{n}-").into_bytes();
+                v.resize(2000 + 3000 * (*n as usize - 100), b'z');
+                v
+            }
             V::B(n) => format!("blob-{n}-abcdefgh").into_bytes(),
             V::J(l) => format!("{{\"ab\":[{}]}}", l.iter().map(|x| x.to_string()).collect::<Vec<_>>().join(",")).into_bytes(),
             V::C(z) => z.to_le_bytes().to_vec(),
@@ -158,7 +164,8 @@ fn gen_ts(rng: &mut Rng, style: u64) -> Option<u64> {
 }
 
 fn gen_val(rng: &mut Rng) -> V {
-    match rng.below(5) {
+    match rng.below(6) {
+        5 => V::B(100 + rng.below(3)),
         0 | 1 => V::B(rng.below(3)),
         2 => V::J(vec![]),
         3 => V::C(rng.below(5) as i64 - 2),
@@ -331,6 +338,7 @@ fn open_store(persistent: bool, path: &str) -> FeoxStore {
 }
 
 struct RunOut {
+    acct: Option<String>,
     resps: Vec<Vec<String>>,
     finals: Vec<String>,
     hist: Vec<String>, // id,op,inv,res,resp
@@ -346,6 +354,21 @@ fn final_gets(store: &FeoxStore, nkeys: u64, hist: &mut Vec<String>, base_id: us
         finals.push(format!("{k}:{}", r.strip_prefix("v:").map_or("-".to_string(), |v| v.to_string())));
     }
     finals
+}
+
+/// C13 at quiescence: memory_usage() = sum over live keys of (record overhead + key + value), len() = live keys
+fn accounting(store: &FeoxStore) -> Option<String> {
+    let overhead = FeoxStore::verif_record_overhead();
+    let snap = store.verif_snapshot();
+    let want: usize = snap.iter().map(|r| overhead + r.key.len() + r.value_len).sum();
+    let got = store.memory_usage();
+    if got != want {
+        return Some(format!("memory-usage-differs-from-the-live-records-at-quiescence reported={got} live-sum={want} keys={}", snap.len()));
+    }
+    if store.len() != snap.len() {
+        return Some(format!("len-differs-from-the-live-keys-at-quiescence len={} live={}", store.len(), snap.len()));
+    }
+    None
 }
 
 fn run_controlled(case: &Case, path: &str, seed: u64) -> RunOut {
@@ -397,7 +420,7 @@ fn run_controlled(case: &Case, path: &str, seed: u64) -> RunOut {
         // threads are stuck: leak everything
         std::mem::forget(handles);
         std::mem::forget(store);
-        return RunOut { resps: vec![], finals: vec![], hist: vec![], shards, hung };
+        return RunOut { acct: None, resps: vec![], finals: vec![], hist: vec![], shards, hung };
     }
     let mut resps = Vec::new();
     let mut hist = Vec::new();
@@ -412,8 +435,9 @@ fn run_controlled(case: &Case, path: &str, seed: u64) -> RunOut {
     }
     let t0 = 2 * (step.load(Ordering::SeqCst) + 2);
     let finals = final_gets(&store, case.nkeys, &mut hist, id, t0);
+    let acct = accounting(&store);
     drop_store(store, case.persistent, path);
-    RunOut { resps, finals, hist, shards, hung }
+    RunOut { acct, resps, finals, hist, shards, hung }
 }
 
 fn drop_store(store: Arc<FeoxStore>, persistent: bool, path: &str) {
@@ -459,8 +483,9 @@ fn run_free(case: &Case, path: &str, seed: u64) -> RunOut {
     }
     let t0 = clock.load(Ordering::SeqCst) + 2;
     let finals = final_gets(&store, case.nkeys, &mut hist, id, t0);
+    let acct = accounting(&store);
     drop_store(store, case.persistent, path);
-    RunOut { resps, finals, hist, shards: vec![], hung: false }
+    RunOut { acct, resps, finals, hist, shards: vec![], hung: false }
 }
 
 pub fn run(opts: &Opts) -> i32 {
@@ -469,6 +494,10 @@ pub fn run(opts: &Opts) -> i32 {
     let shards = opts.u64("shards", 16);
     let mode = opts.str("mode", "sched");
     let per = opts.u64("n", if opts.thorough() { 6000 } else { 300 });
+    let accounting_on = opts.u64("accounting", 0) == 1;
+    if mode == "mem" {
+        return run_mem(opts);
+    }
     std::fs::create_dir_all(format!("{dir}/dev")).unwrap();
     let cb: feoxdb::verif::sched::Callback = Arc::new(point);
     feoxdb::verif::sched::install(Some(cb));
@@ -495,9 +524,10 @@ pub fn run(opts: &Opts) -> i32 {
                     *kinds.entry(rs.split(':').next().unwrap_or("").split('-').next().unwrap_or("").to_string()).or_default() += 1;
                 }
                 let unexpected = r.resps.iter().flatten().find(|x| x.starts_with("err-") || x.contains("unknown-bytes"));
-                let verdict = match unexpected {
-                    Some(x) => format!("FAIL unexpected-response {x} prog={prog_s}"),
-                    None => "ok".to_string(),
+                let verdict = match (unexpected, &r.acct) {
+                    (Some(x), _) => format!("FAIL unexpected-response {x} prog={prog_s}"),
+                    (None, Some(a)) if accounting_on => format!("FAIL {a} prog={prog_s}"),
+                    _ => "ok".to_string(),
                 };
                 if mode == "sched" {
                     let shards_s = r.shards.iter().enumerate().map(|(k, s)| format!("{k}:{s}")).collect::<Vec<_>>().join(",");
@@ -528,5 +558,76 @@ pub fn run(opts: &Opts) -> i32 {
     let dist = all.iter().map(|(k, v)| format!("\"{k}\": {v}")).collect::<Vec<_>>().join(", ");
     std::fs::write(format!("{dir}/stats.json"), format!("{{\"mode\": \"{mode}\", \"responses\": {{{dist}}}}}")).unwrap();
     println!("conc mode={mode}: {total} cases");
+    0
+}
+
+
+/// mode=mem (C13): creators, growers and deleters racing against a memory limit that admits only
+/// some of them; a monitor samples memory_usage(): it must never exceed the limit; at quiescence
+/// the accounting must be exact.
+fn run_mem(opts: &Opts) -> i32 {
+    let dir = opts.str("out", "/verif/.build/cases/conc");
+    let seed = opts.u64("seed", 1);
+    let n = opts.u64("n", if opts.thorough() { 400 } else { 24 });
+    let mut out = Out::new(&dir, "s0");
+    let mut rng = Rng::new(seed.wrapping_mul(99_991));
+    let overhead = FeoxStore::verif_record_overhead();
+    let mut refused = 0u64;
+    for case in 0..n {
+        let nkeys = rng.range(2, 8);
+        let limit = (rng.range(2, 6) as usize) * (overhead + 4 + 3000);
+        let store = Arc::new(FeoxStore::builder().hash_bits(6).max_memory(limit).build().expect("store"));
+        let stop = Arc::new(std::sync::atomic::AtomicBool::new(false));
+        let over = Arc::new(AtomicU64::new(0));
+        let oom = Arc::new(AtomicU64::new(0));
+        let mut hs = Vec::new();
+        {
+            let (store, stop, over) = (store.clone(), stop.clone(), over.clone());
+            hs.push(std::thread::spawn(move || {
+                while !stop.load(Ordering::Relaxed) {
+                    let u = store.memory_usage();
+                    if u > limit {
+                        over.fetch_max(u as u64, Ordering::Relaxed);
+                    }
+                }
+            }));
+        }
+        for t in 0..4u64 {
+            let (store, stop, oom) = (store.clone(), stop.clone(), oom.clone());
+            let mut rng = rng.fork();
+            hs.push(std::thread::spawn(move || {
+                while !stop.load(Ordering::Relaxed) {
+                    let k = key_bytes(rng.below(nkeys));
+                    let v = vec![b'a' + t as u8; rng.range(1, 6000) as usize];
+                    let r = match rng.below(8) {
+                        0 | 1 => store.delete(&k).map(|_| true),
+                        2 => store.insert_bytes(&k, bytes::Bytes::from(v)),
+                        3 => store.insert_if_absent(&k, &v),
+                        _ => store.insert(&k, &v),
+                    };
+                    if matches!(r, Err(FeoxError::OutOfMemory)) {
+                        oom.fetch_add(1, Ordering::Relaxed);
+                    }
+                }
+            }));
+        }
+        std::thread::sleep(Duration::from_millis(60));
+        stop.store(true, Ordering::Relaxed);
+        for h in hs {
+            let _ = h.join();
+        }
+        refused += oom.load(Ordering::Relaxed);
+        let verdict = if over.load(Ordering::Relaxed) > 0 {
+            format!("FAIL memory-usage-above-the-limit-while-writers-race peak={} limit={limit}", over.load(Ordering::Relaxed))
+        } else if let Some(a) = accounting(&store) {
+            format!("FAIL {a}")
+        } else {
+            "ok".to_string()
+        };
+        out.emit3(&format!("note mem case={case} keys={nkeys} limit={limit} refused={}", oom.load(Ordering::Relaxed)), "note", &verdict);
+    }
+    std::fs::write(format!("{dir}/stats.json"), format!("{{\"mode\": \"mem\", \"writes_refused_for_memory\": {refused}}}")).unwrap();
+    let total = out.finish();
+    println!("conc mode=mem: {total} cases");
     0
 }
